@@ -32,7 +32,16 @@ var parsingDurMangler = must(transform.NewSingleTypeSubstitutionMangler[time.Dur
 
 // Decode is a decoder that decodes the Cue config from an io.Reader into the
 // appropriate struct.
-func (d *Decoder) Decode(r io.Reader, t *dials.Type) (reflect.Value, error) {
+func (d *Decoder) Decode(r io.Reader, t *dials.Type) (decoded reflect.Value, err error) {
+	// The CUE evaluator can panic on a malformed document (e.g. a string
+	// multiplied by a count whose product overflows: strings.Repeat
+	// panics). Report that as an error.
+	defer func() {
+		if p := recover(); p != nil {
+			decoded, err = reflect.Value{}, fmt.Errorf("failed to evaluate cue blob: %v", p)
+		}
+	}()
+
 	raw, readErr := io.ReadAll(r)
 	if readErr != nil {
 		return reflect.Value{}, fmt.Errorf("error reading raw bytes: %w", readErr)
